@@ -402,14 +402,18 @@ func runC20(c *mon.Ctx) {
 		}
 		c.Case("concurrent-calls", map[string]any{"questions": len(qs)}, func() {
 			c.Nontrivial("concurrent-calls")
-			c.ConcurrentReplay("token", len(qs), func(i int) string {
+			// the calls are short and what one of them could leave in another's way is there for a few instructions
+			// only: the replay is repeated (about 60,000 concurrent calls in all)
+			for rep := 0; rep < 24 && c.Violations() == 0; rep++ {
+				c.ConcurrentReplay("token", len(qs), func(i int) string {
 				tok, err := tokens.GenerateLoginToken(qs[i].op)
 				if err != nil {
 					return "issue error"
 				}
 				u, uerr := tokens.GetUserFromToken(tok)
 				return fmt.Sprintf("validates=%v for-other-user=%v reveals-own-user=%v", tokens.ValidateToken(qs[i].op, tok) == nil, tokens.ValidateToken(qs[i].other, tok) == nil, uerr == nil && u == qs[i].op.UserID)
-			})
+				})
+			}
 		})
 	}
 	c.Floor("issued", 20)
